@@ -14,6 +14,9 @@ def check(ctx):
     for i in range(k):
         sh_common.record(ctx, "lookup", 16, seed_off=i,
                          need=("ShLookup:file:hit", "ShLookup:file:none", "ShLookup:xorb:hit", "ShLookup:xorb:none", "ShScan", "ShSizes"))
+    # exported (re-keyed, tables optionally dropped, streaming and file variants) shards are serialized shards too:
+    # scans and by-hash lookups of every export
+    sh_common.record(ctx, "keyed", 4 if not thorough else 8, seed_off=70, need=("ShExport", "ShExportLookup:file:hit", "ShExportLookup:file:none"))
     ctx.exhaustive = True
     ctx.assumptions += sh_common.ASSUME + [
         "the interpolated probe position is modelled as ANY position the clamp allows, so the model covers every floating-point rounding",
